@@ -222,11 +222,30 @@ func (ex *Exec) doStore(st *State, fr *Frame, x *ssa.Store) {
 	// program-point assertions of the verified function's contract
 	if top := ex.topFrame; top != nil && top.ct != nil && fr == top && len(top.ct.StoreAsserts) > 0 && a.Kind == AHeap && len(a.Path) == 1 && !a.Path[0].IsIdx {
 		if stt, ok := a.Root.Underlying().(*types.Struct); ok {
+			var stones []invConjE
 			for _, cl := range top.ct.StoreAsserts[stt.Field(a.Path[0].Field).Name()] {
-				o := ex.oblige(st, fr, "assert-after-store("+stt.Field(a.Path[0].Field).Name()+")", x.Pos(), cl.Text, ex.evalBool(top, st, top.entry, nil, cl.Expr))
-				if o != nil && len(cl.Props) > 0 {
-					o.Props = cl.Props
+				for _, part := range ex.splitClauseE(top, st, nil, cl) {
+					// universally quantified assertions are proved for skolem constants
+					// (with explicit instances of the recorded hypotheses) and then
+					// serve as a recorded hypothesis themselves: a stepping stone
+					full := part.term
+					term := full
+					sk, isQ := ex.skolemWithHyps(fr, st, part)
+					if isQ {
+						term = sk
+					}
+					o := ex.oblige(st, fr, "assert-after-store("+stt.Field(a.Path[0].Field).Name()+")", x.Pos(), part.text, term)
+					if o != nil && len(cl.Props) > 0 {
+						o.Props = cl.Props
+					}
+					if isQ {
+						ex.assume(st, full)
+						stones = append(stones, part)
+					}
 				}
+			}
+			if len(stones) > 0 {
+				ex.hyps = append(ex.hyps, hypRecord{state: st.clone(), parts: stones})
 			}
 		}
 	}
